@@ -22,10 +22,10 @@ import (
 func init() { commands["C11"] = runC11 }
 
 type c11Case struct {
-	Versions []string `json:"versions"` // file versions, ascending by file name
-	Ck       []bool   `json:"ck"`       // checkpoint flags
-	Revs     []string `json:"revs"`     // versions having a revision (ascending)
-	Partial  bool     `json:"partial"`  // is the last revision partially applied
+	Versions []string `json:"versions"`           // file versions, ascending by file name
+	Ck       []bool   `json:"ck"`                 // checkpoint flags
+	Revs     []string `json:"revs"`               // versions having a revision (ascending)
+	Partial  bool     `json:"partial"`            // is the last revision partially applied
 	Resolved bool     `json:"resolved,omitempty"` // ... and was it then marked by `migrate set` (Execute|Resolved)
 	Cfg      MCfg     `json:"cfg"`
 }
@@ -435,6 +435,9 @@ func runC11(e *Env) error {
 			e.Res.Violate("no-failing-input-found", "corr-pending-mismatch", fmt.Sprintf("implementation %s vs model %s on %s", hxJSON(impl), hxJSON(model), hxJSON(c)), "correspondence Atlas.Pending.pending", replay)
 		}
 	})
+	if e.Replay == "" && e.Atlas != "" {
+		c11CLI(e, pool)
+	}
 	return nil
 }
 
